@@ -243,12 +243,53 @@ fn op_frontend(req: &J) -> J {
     out["parse_errors"] = J::Array(parse_errors_json(&errors));
     out["num_items"] = json!(items.len());
 
+    // Render the parse errors the way the CLI prints them.
+    let project_root = PathBuf::from("/verif_hook");
+    let rendered = catch(|| {
+        let mut n = 0usize;
+        for e in &errors {
+            if let ParseError::Invalid {
+                position,
+                message,
+                notes,
+            } = e
+            {
+                n += crate::diagnostics::format_diagnostic(
+                    message,
+                    position,
+                    &project_root,
+                    crate::diagnostics::Severity::Error,
+                    notes,
+                    &vfs,
+                )
+                .len();
+            }
+        }
+        n
+    });
+    if let Err(p) = rendered {
+        out["panic"] = p;
+        out["stage"] = J::String("render-parse-errors".to_owned());
+        return out;
+    }
+
     if do_check && errors.is_empty() {
         let checked = catch(|| {
             let mut env = Env::new(id_gen, vfs);
             let ns = env.get_or_create_namespace(&path);
             let (mut diagnostics, _) = load_toplevel_items(&items, &mut env, Rc::clone(&ns));
             diagnostics.extend(check_toplevel_items_in_env(&vfs_path, &items, &env, ns));
+            // Render each diagnostic the way the CLI prints it.
+            for d in &diagnostics {
+                let _ = crate::diagnostics::format_diagnostic(
+                    &d.message,
+                    &d.position,
+                    &env.project_root,
+                    d.severity,
+                    &d.notes,
+                    &env.vfs,
+                );
+            }
             diagnostics
                 .iter()
                 .map(|d| {
